@@ -99,7 +99,7 @@ fn main() {
                 "BK" | "BKS" => chess::book(&mut out),
                 "GI" => iter::replay(&mut out, &f),
                 "SR" | "MR" => search::replay(&mut out, &f),
-                "SH" => search::replay_sh(&mut out, &f),
+                "SH" | "SK" => search::replay_sh(&mut out, &f),
                 "BT" => {
                     let root = std::env::var("VERIF_ROOT").unwrap_or("/verif".into());
                     bot::replay(&mut out, &f, &format!("{root}/.cache/target/bot/release/libchess_bot.so"))
